@@ -359,6 +359,14 @@ KERNELS = [
                  "crossover_func": ("crossFn", ["individs", "fitness", "rank", "max_level"], ["Arr", "Arr", "Arr", "Int"], "Int"),
                  "mutation_func": ("mutFn", ["tree", "uniset", "proba", "max_level"], ["Int", "Int", "Int", "Int"], "Int"),
                  "self._choice_parent": ("parentFn", ["fitness_i_selected"], ["Arr"], "Int")}),
+    # ---- the GA family's evaluation step: the base class's step first (its effect on the three arrays is `stepFn g ph fit k`), then the
+    #      scaled fitness and the ranks are computed from the fitness vector AS IT IS AFTER that step (elite included)
+    dict(name="GA_from_population_g_to_fitness", file="optimizers/_geneticalgorithm.py", cls="GeneticAlgorithm", func="_from_population_g_to_fitness", params=[], ret="Mat",
+         self_arrays=["_population_g_i", "_population_ph_i", "_fitness_i", "_fitness_scale_i", "_fitness_rank_i"],
+         effects_arr={"super()._from_population_g_to_fitness()": ("stepFn", ["_population_g_i", "_population_ph_i", "_fitness_i"],
+                                                                 ["_population_g_i", "_population_ph_i", "_fitness_i"])},
+         ext_fn={"minmax_scale": ("scaleFn", ["data"], ["Arr"]), "rankdata": ("rankFn", ["a"], ["Arr"])},
+         actions={"self._adapt": 9}, append_self_return=True),
     dict(name="tournament_selection", file="utils/selections.py", func="tournament_selection",
          params=[("fitness", "Arr"), ("rank", "Arr"), ("tour_size", "Int"), ("quantity", "Int")], ret="Arr",
          ext_fn={"random_sample": ("sampler", ["range_size", "quantity", "replace"])}),
@@ -1351,6 +1359,14 @@ class Tr:
             L.append(f"{{ s with err := s.err || decide ((s.{t}).length ≠ {len(writes)}), " +
                      ", ".join(f"int{w.replace('.', '_')} := Imp.geti s.{t} ({k} : Int)" for k, w in enumerate(writes)) + " }")
             return L
+        if isinstance(st, ast.Expr) and isinstance(st.value, ast.Call) and ast.unparse(st.value) in self.cfg.get("effects_arr", {}):
+            # a call whose effect on the listed arrays is a function parameter of the listed arrays (rows of its result, in order)
+            par, reads, writes = self.cfg["effects_arr"][ast.unparse(st.value)]
+            t = self.tmp("Mat")
+            L.append(f"{{ s with {t} := {par} " + " ".join(f"s.arr{r}" for r in reads) + " s.kx, kx := s.kx + 1 }")
+            L.append(f"{{ s with err := s.err || decide ((s.{t}).length ≠ {len(writes)}), " +
+                     ", ".join(f"arr{w} := Imp.getrow s.{t} ({k} : Int)" for k, w in enumerate(writes)) + " }")
+            return L
         if isinstance(st, ast.Assign) and len(st.targets) == 1 and isinstance(st.targets[0], ast.Tuple) and self.cfg.get("record_get") \
                 and ast.unparse(st.value) == self.cfg["record_get"][0]:
             # (X[-1], Y[-1], Z[-1]) = self._thefittest.get().values(): the translated get() on the current record, its values in order
@@ -1772,6 +1788,7 @@ class Tr:
         if cfg.get("fuel_param"):
             extra += " (fuelp : Nat)"
         extra += "".join(f" ({v[0]} : " + "List Int → " * len(v[1]) + "Nat → List Int)" for v in cfg.get("effects", {}).values())
+        extra += "".join(f" ({v[0]} : " + "List Int → " * len(v[1]) + "Nat → List (List Int))" for v in cfg.get("effects_arr", {}).values())
         extra += "".join(f" ({par} : Int → List (List Int))" for par in self.tree_ext_fn.values())
         extra += "".join(f" ({par} : Int → Bool)" for par in self.node_preds.values())
         extra += "".join(f" ({par} : Int → Int)" for par in self.node_attrs.values())
@@ -1789,7 +1806,7 @@ class Tr:
                 f"   on every run of the checks that depend on it. Do not edit. -/\n"
                 f"import TFV.Model.Imp\n{imports}\nset_option linter.unusedVariables false\n\nnamespace TFV.Generated.Src\nopen TFV\n\n"
                 f"structure {name}.S where\n{fields}  brk : Bool := false\n  cnt : Bool := false\n  err : Bool := false\n  dry : Bool := false\n"
-                f"  ku : Nat := 0\n  kn : Nat := 0\n  kr : Nat := 0\n" + ("  kx : Nat := 0\n" if (self.ext_stream or self.ext_fn or self.opaque_fn or cfg.get("effects")) else "") + ("  kb : Nat := 0\n  log : List Int := []\n" if (self.bool_stream or self.actions) else "") + "\n"
+                f"  ku : Nat := 0\n  kn : Nat := 0\n  kr : Nat := 0\n" + ("  kx : Nat := 0\n" if (self.ext_stream or self.ext_fn or self.opaque_fn or cfg.get("effects") or cfg.get("effects_arr")) else "") + ("  kb : Nat := 0\n  log : List Int := []\n" if (self.bool_stream or self.actions) else "") + "\n"
                 f"def {name} {params} {extra} : Option ({LTY[cfg['ret']]}) :=\n"
                 f"  let s : {name}.S := {{" + ", ".join([f"self{a} := Imp.geti self ({k} : Int)" for k, a in enumerate(self.self_state)] + [f"arr{a_} := {a_[1:]}" for a_ in self.self_arrays] + [f"int{a_.replace('.', '_')} := {a_[1:].replace('.', '_')}_0" for a_ in self.self_ints]) + f"}}\n{fuel}{body}\n\nend TFV.Generated.Src\n")
 
@@ -1832,7 +1849,7 @@ def translate(repo: Path, cfg: dict) -> str:
         ast.fix_missing_locations(fn)
     if cfg.get("append_self_return"):
         mk = lambda a_: ast.parse("self." + a_, mode="eval").body   # noqa: E731
-        rows = [mk(a_) for a_ in cfg["self_arrays"]] + [ast.List(elts=[mk(a_) for a_ in cfg.get("self_ints", [])], ctx=ast.Load())]
+        rows = [mk(a_) for a_ in cfg["self_arrays"]] + ([ast.List(elts=[mk(a_) for a_ in cfg["self_ints"]], ctx=ast.Load())] if cfg.get("self_ints") else [])
         fn = ast.FunctionDef(name=fn.name, args=fn.args, body=list(fn.body) + [ast.Return(value=ast.List(elts=rows, ctx=ast.Load()))], decorator_list=[], returns=None, type_comment=None)
         ast.fix_missing_locations(fn)
     if cfg.get("dict_values"):
